@@ -13,6 +13,7 @@ package itself included — has q selected at a version contained in set), and e
 -/
 import PubgrubProofs.OwnInvariant
 import PubgrubProofs.RangeAnyOrder
+import PubgrubProofs.Examples
 
 namespace Pubgrub.C01
 open Pubgrub
@@ -51,5 +52,8 @@ theorem C01_range_solution_valid (W : World P (Range V) V M) (hW : W.RangesWF) (
   range_solution_valid W hW debug fuel root rv s sel h
 
 end AnyOrder
+
+/-! Non-vacuity on concrete runs (PubgrubProofs/Examples.lean, evaluated by `decide +kernel`; registered in
+obligations.json so that their axioms are audited too): `Examples.example_A_run`, `Examples.example_A_backtracks`, `Examples.example_A_solution_valid`. -/
 
 end Pubgrub.C01
